@@ -66,6 +66,12 @@ def correspond(run):
     run.oblige("hypotheses:scripts-well-formed", "correspondence", not illformed,
                "pair scripts outside the theorems' hypotheses (values must not decrease, slots < m, at most m points): %s" % illformed[:2])
     run.oblige("direct:signature-is-hash-of-selected", "correspondence", not sigbad, "%s" % sigbad[:2])
+    if sigbad:
+        c = min(sigbad, key=lambda x: x["len"])
+        run.violation("ord-sig-not-in-sequence-order", "hash_set: a signature position is not the combined hash of its l selected elements read in "
+                      "sequence order (m=%d, l=%d, sequence %s)" % (c["m"], c["l"], c["data"]),
+                      {"kind": "impl-input", "sketcher": "ProbOrdMinHash2", "input": {"m": c["m"], "l": c["l"], "data": c["data"]},
+                       "observed": "signature differs from WyHash over the selected elements sorted by sequence index"})
 
 
 def direct(run):
